@@ -170,6 +170,11 @@ class BaseBatch(abc.ABC):
             if response_map and self._client.strict:
                 raise exceptions.IdentityError(f"unexpected response found: {response_map.keys()}")
 
+            # results are read by position: put the responses into the order the calls were made,
+            # whatever order the server used (unmatched responses keep their place after them)
+            position = {id(request): number for number, request in enumerate(batch_request)}
+            batch_response._responses.sort(key=lambda response: position.get(id(response.related), len(position)))
+
 
 class Batch(BaseBatch):
     """
